@@ -111,10 +111,10 @@ func (b *SubsBox) Size() uint64 {
 		size += 6 // sample_delta + sub_sample_count
 		//  4 entries per subsample with different lengths for
 		// version 0 and 1
-		if b.Version == 0 {
-			size += len(e.SubSamples) * (2 + 1 + 1 + 4)
-		} else {
+		if b.Version == 1 {
 			size += len(e.SubSamples) * (4 + 1 + 1 + 4)
+		} else {
+			size += len(e.SubSamples) * (2 + 1 + 1 + 4)
 		}
 	}
 	return uint64(size)
